@@ -67,6 +67,7 @@ pub enum HandshakeProcessResult {
 ///
 /// This only matters due to the FP9 handshaking process, where the client and server use different
 /// calculations for packet generation.
+#[cfg_attr(feature = "verif", derive(Clone))]
 #[derive(Debug, Eq, PartialEq)]
 pub enum PeerType {
     /// Handshake being represented as a server
@@ -135,6 +136,7 @@ enum Stage {
 /// }
 /// ```
 ///
+#[cfg_attr(feature = "verif", derive(Clone))]
 pub struct Handshake {
     current_stage: Stage,
     peer_type: PeerType,
@@ -510,12 +512,23 @@ fn calc_hmac(input: &[u8], key: &[u8]) -> [u8; SHA256_DIGEST_LENGTH] {
 }
 
 fn fill_with_random_data(buffer: &mut [u8]) {
+    #[cfg(feature = "verif")]
+    {
+        if ::verif_hooks::fill(buffer) {
+            return;
+        }
+    }
+
     let mut rng = rand::thread_rng();
     for x in 0..buffer.len() {
         let value = rng.gen();
         buffer[x] = value;
     }
 }
+
+#[cfg(feature = "verif")]
+#[path = "verif_handshake.rs"]
+mod verif;
 
 #[cfg(test)]
 mod tests {
